@@ -2,5 +2,5 @@
 from mc import master, ops, oracles
 from mc.props import _std
 
-_std.install(globals(), 'C01', 'model_checking', [master.oracle_roundtrip], _std.default_bounds(ce=True, big_udf=True),
+_std.install(globals(), 'C01', 'model_checking', [master.oracle_roundtrip], _std.default_bounds(ce=True, big=True, big_udf=True),
              ['reference model mc/model.py states the documented meaning of each public call', 'pycdlib reads its own image here (independent readers: C03/C08/C09/C10)'] + ['alphabet sigma1 of mc/ops.py and the depth bounds listed in the evidence'])
